@@ -513,7 +513,7 @@ def phase_atheris(task):
         return st_
     out = env.fresh_dir()
     corpus = env.fresh_dir()
-    args = [sys.executable, "-B", os.path.join(env.VERIF, "vlib", "fuzz_c17.py"), out, corpus, f"-runs={task['runs']}", f"-seed={task['seed']}", "-max_len=128", "-len_control=0", f"-dict={os.path.join(env.VERIF, 'corpus', 'c17.dict')}", "-timeout=30", f"-max_total_time={task.get('budget_s', 300)}", "-rss_limit_mb=4096", "-verbosity=0", "-print_final_stats=0"]
+    args = [sys.executable, "-B", os.path.join(env.VERIF, "vlib", "fuzz_c17.py"), out, corpus, f"-runs={task['runs']}", f"-seed={task['seed']}", "-max_len=128", "-len_control=0", f"-dict={os.path.join(env.VERIF, 'corpus', 'c17.dict')}", "-timeout=30", f"-max_total_time={task.get('budget_s', 300)}", "-rss_limit_mb=4096", "-verbosity=0", "-print_final_stats=0", f"-artifact_prefix={out}/"]
     if task["corpus"]:
         src = os.path.join(env.VERIF, "corpus", "c17")
         for name in sorted(os.listdir(src)):
